@@ -319,7 +319,8 @@ def c16_bankruptcy(case, impl_case):
     if root is None or root.f["flags"][2] == "T":
         return fails
     vals, cash = root.vals("hg_values"), root.vals("hg_cash")
-    neg = [t for t, v in enumerate(vals) if v < -1e-9]
+    # "below zero" as bt itself tests it: val < 0 and not is_zero(val), is_zero(x) = abs(x) < 1e-16
+    neg = [t for t, v in enumerate(vals) if v < 0 and abs(v) >= 1e-16]
     flagged = root.s["bankrupt"] == "T"
     if flagged != bool(neg):
         fails.append("bankrupt flag %s but recorded values negative on rows %s" % (flagged, neg[:3]))
@@ -333,7 +334,7 @@ def c16_bankruptcy(case, impl_case):
         # liquidation happens inside that date's update, so the recorded value of that date is post-liquidation
         first = None
         for t in range(len(vals)):
-            if vals[t] < -1e-9:
+            if vals[t] < 0 and abs(vals[t]) >= 1e-16:
                 first = t
                 break
         if first is not None:
@@ -872,6 +873,30 @@ def c15_limit_deltas(case, impl_case):
                 if abs(d_) > lim + 1e-9:
                     fails.append("%s row %d: the weight of child %d moved by %r, LimitDeltas allows %r" % (n.path, row, kid, d_, lim))
                     break
+            else:
+                # when the targets of the date are known (WeighSpecified, or the dated row of WeighTarget, right before
+                # LimitDeltas): every child moves towards its target (0 when not targeted) by exactly the clipped difference
+                src = fl[-3] if len(fl) >= 3 else None
+                tgt = None
+                if src is not None and src[0] == "weighspecified":
+                    tgt = {k: float.fromhex(x) for k, x in src[1]}
+                elif src is not None and src[0] == "weightarget":
+                    fr = {k: a for k, a in case.get("adata", [])}.get(src[1])
+                    alld = [case["dates"][0] - 86400] + list(case["dates"])
+                    if fr is not None and alld[row] in fr[1]:
+                        r_ = fr[1].index(alld[row])
+                        tgt = {k: float.fromhex(col[r_]) for k, col in fr[2] if col[r_] != "nan"}
+                if tgt is not None and all(k in post for k in tgt):
+                    for kid in post:
+                        w0 = pre[kid] / vpre
+                        want = max(-lim, min(lim, tgt.get(kid, 0.0) - w0))
+                        d_ = post[kid] / vpre - w0
+                        if abs(d_ - want) > 1e-9:
+                            fails.append("%s row %d: child %d moved from weight %r by %r; towards its target %r within the limit %r it is %r"
+                                         % (n.path, row, kid, w0, d_, tgt.get(kid, 0.0), lim, want))
+                            break
+            if fails:
+                break
     return fails
 
 
@@ -922,6 +947,67 @@ def c06_rebalance(case, impl_case):
 
 
 # ---------------------------------------------------------------- C20
+def c06_rebalance_over_time(case, impl_case):
+    """'RebalanceOverTime reaches the same targets in n equal steps': a flat root of plain securities, fractional positions,
+    no costs, no flows, static WeighSpecified targets (possibly rescaled) and run_always(RebalanceOverTime(n)) as the last
+    algo: on the n-th run after the last date on which targets arrived (none arriving in between) every targeted child
+    sits exactly at its target and every other child is closed"""
+    fails = []
+    if case["intpos"] or case["comm"][0] != "none" or case.get("bidoffer"):
+        return fails
+    tree = case["tree"]
+    if tree[0] != "strat" or len(tree) < 5 or tree[2]:
+        return fails
+    every = all_algos(tree[4])
+    if any(a[0] in ("capitalflow", "useradjust", "limitdeltas", "limitweights", "closedead", "or", "not", "rebalance", "weightarget",
+                    "weighequally", "setnotional") for a in every):
+        return fails
+    top = tree[4]
+    if not top or top[-1][0] != "always" or not top[-1][1] or top[-1][2][0] != "rebalanceovertime":
+        return fails
+    ws = [a for a in every if a[0] == "weighspecified"]
+    if len(ws) != 1 or sum(1 for a in every if a[0] == "rebalanceovertime") != 1:
+        return fails
+    n_steps = int(round(float.fromhex(top[-1][2][1])))
+    W = {k: float.fromhex(x) for k, x in ws[0][1]}
+    for a in every:
+        if a[0] == "scale":
+            W = {k: v * float.fromhex(a[1]) for k, v in W.items()}
+    state = impl_case["steps"][-1]["state"]
+    root, nodes, _ = build_tree(state)
+    if root is None or any(k.kind != "S" for k in root.kids):
+        return fails
+    runs = [(row, res) for row, res, sel, w, st in node_traces(root) if row is not None]
+    vals = root.vals("hg_values")
+    pcols = {k: col for k, col in case["prices"]}
+    for j, (row, res) in enumerate(runs):
+        if not res or j + n_steps - 1 >= len(runs):
+            continue
+        if any(r2 for _, r2 in runs[j + 1:j + n_steps]):
+            continue                                  # fresh targets arrive before the schedule ends: judged from the later arrival
+        if any(runs[j + i][0] != row + i for i in range(n_steps)):
+            continue
+        end = row + n_steps - 1
+        v = fnum(vals[end])
+        if v != v or abs(v) < 1e-9:
+            continue
+        for k in root.kids:
+            kid = int(k.path.split(".")[-1])
+            col = pcols.get(kid)
+            pos = k.vals("h_positions")
+            if col is None or end >= len(pos) or col[end - 1] == "nan":
+                break
+            wt = fnum(pos[end]) * float.fromhex(col[end - 1]) / v
+            want = W.get(kid, 0.0)
+            if abs(wt - want) > 1e-9:
+                fails.append("row %d, step %d of %d after the targets of row %d: child %d sits at weight %r, target %r"
+                             % (end, n_steps, n_steps, row, kid, wt, want))
+                break
+        if fails:
+            break
+    return fails
+
+
 def c20_risk(case, impl_case):
     fails = []
     state = impl_case["steps"][-1]["state"]
